@@ -106,8 +106,8 @@ class SumAggregator:
                     and elem.terms[0].symbol.type == SymbolType.Number
                     and elem.terms[0].symbol.number > 0
                 ):
-                    alone = False
-                    continue
+                    # a weight that is not a positive number may lower the sum and allow more atoms of other elements
+                    return ret
             else:
                 condition = elem
 
